@@ -34,6 +34,7 @@ def strategy(draw, tier):
     case = draw(gen.st_analysis_case(bursty=draw(st.booleans()), tie_rich=draw(st.integers(0, 3)) == 0))
     case['a_exp'] = draw(st.one_of(st.integers(-40, 40), st.sampled_from([-30, -20, -3, 1, 3, 20, 30])))
     case['c_exp'] = draw(st.sampled_from([-4, -3, -2, -1, 1, 2, 3, 4]))
+    case['reuse_options'] = draw(st.integers(0, 2)) == 0
     return case
 
 
@@ -58,13 +59,16 @@ def compare(tag, base, other, factor):
 
 def check(case, rec):
     x = gen.render_signal(case['sig'])
+    int_scaling = x.dtype.kind == 'i' and 0 <= case['a_exp'] <= 40
+    if not int_scaling:
+        x = x.astype(float)          # a*x is float then anyway: compare like with like
     pipeline.expected_cycles(case, x)
     if case['method'] == 'amp':
         pipeline.trusted_burst_mask(case, x)
     base = pipeline.analyse(case, x)
     rec.label(*gen.case_labels(case))
     a = 2.0 ** case['a_exp']
-    scaled = pipeline.analyse(case, x * a)
+    scaled = pipeline.analyse(case, x * (2 ** case['a_exp']) if int_scaling else x * a)   # integer counts stay integer counts
     compare('amplitude', base, scaled, a)
     # (b) rate units: lengths must be in cycles
     c = 2.0 ** case['c_exp']
@@ -81,13 +85,24 @@ def check(case, rec):
     base_b = pipeline.analyse(cb, x) if changed else base
     cs = dict(cb, fs=cb['fs'] * c, f_range=[cb['f_range'][0] * c, cb['f_range'][1] * c])
     pipeline.expected_cycles(cs, x)                 # discards when the trusted design rejects the scaled band
+    ref.ref_band_amp(x, cs['fs'], tuple(cs['f_range']))   # ... or the fixed 3-cycle band-amplitude filter of the scaled band
     if cb['method'] == 'amp':
         pipeline.trusted_burst_mask(cs, x)
     rate = pipeline.analyse(cs, x)
     compare('rate', base_b, rate, 1)
+    if case.get('reuse_options'):
+        # a caller who keeps ONE set of option dictionaries and analyses the same samples under both unit conventions
+        import warnings
+        from bycycle.features import compute_features
+        kw = gen.cf_kwargs(cb)
+        with warnings.catch_warnings():
+            warnings.simplefilter('ignore')
+            first = guarded(compute_features, x.copy(), cb['fs'], tuple(cb['f_range']), **kw)
+            second = guarded(compute_features, x.copy(), cs['fs'], tuple(cs['f_range']), **kw)
+        compare('rate-reused-options', first, second, 1)
     lab = base['is_burst'].values
     mixed = bool(lab.any() and not lab.all())
-    rec.label('labels-mixed' if mixed else 'labels-uniform', 'a<1' if a < 1 else 'a>1', 'c<1' if c < 1 else 'c>1',
+    rec.label('int-signal' if int_scaling else 'float-signal', 'options-reused' if case.get('reuse_options') else 'fresh-options', 'labels-mixed' if mixed else 'labels-uniform', 'a<1' if a < 1 else 'a>1', 'c<1' if c < 1 else 'c>1',
               'seconds-options-removed' if changed else 'cycles-options')
     rec.nontrivial(len(base) >= 4 and mixed)
 
